@@ -95,6 +95,8 @@ def init_strategy(kind):
         st.tuples(st.just("list"), st.lists(sx, max_size=3)).map(list),
         st.tuples(st.just("dict"), st.lists(st.tuples(eid_literal, sx).map(list), max_size=3, unique_by=lambda t: repr(t[0]))).map(list),
         st.tuples(st.just("hg"), st.lists(st.tuples(eid_literal, sx).map(list), max_size=3, unique_by=lambda t: repr(t[0]))).map(list),
+        # a fresh complex whose first simplex was added singly under a falsy explicit ID (0, 0.0, numpy 0)
+        st.tuples(st.just("first-explicit"), sx, st.sampled_from(["int", "int", "float", "npint"])).map(list),
     )
 
 
@@ -108,6 +110,10 @@ def make_init(init):
         return xgi.SimplicialComplex({k: list(m) for k, m in init[1]})
     if t == "hg":
         return xgi.SimplicialComplex(xgi.Hypergraph({k: list(m) for k, m in init[1]}))
+    if t == "first-explicit":
+        S = xgi.SimplicialComplex()
+        S.add_simplex(list(init[1]), idx=nets.ZERO[init[2]])
+        return S
     raise ValueError(t)
 
 
